@@ -1,7 +1,8 @@
 (** C19 — Instance-name routing: longest-prefix demultiplexing with prefix
     rewriting, instance-name trie, patcher, hierarchical instance names.
     Statements only; proofs are in Routing/*Proofs.v. *)
-From BBS Require Import Common.Sx Routing.Names Routing.NamesProofs Routing.Trie Routing.TrieProofs
+From BBS Require Import Common.Sx Routing.Names Routing.NamesProofs Routing.Trie Routing.TrieProofs Routing.TrieFull Routing.TrieFullMon Routing.TrieFullMonHier Routing.TrieFullMonPatcher
+  Routing.TrieFullMonDemux Routing.TrieFullMonAll
   Routing.Patcher Routing.PatcherProofs Routing.Demux Routing.DemuxProofs Routing.HierNames Routing.HierProofs Run.R19.
 Open Scope Z_scope.
 
@@ -37,19 +38,132 @@ Theorem set_spec : forall t n v, reach t -> 0 <= v ->
 Proof. exact set_to_map. Qed.
 Print Assumptions set_spec.
 
-(** Full statement (the last clause as an equivalence):
-      ... /\ (b = true <-> forall m, assoc_get (to_map t') m = -1)
-    The direction "empty => true" needs the invariant that reachable tries have
-    no value-less leaves; it is checked against the real trie on every run
-    (monitor clause 3) but not proved here.  Remove of an absent name whose node
-    does not exist is [Panic] in the model (nil dereference in Go), hence the
-    hypothesis. *)
-Theorem remove_spec_partial : forall t n, reach t -> 0 <= assoc_get (to_map t) n ->
+(** No dead branches: in every reachable trie every node other than the root
+    lies on the path to a registered name, and every leaf other than the root is
+    itself registered ([subtrie t p] = the node reached from the root along [p]).
+    Hence a reachable trie that stands for the empty map IS the empty trie. *)
+Theorem reachable_trie_has_no_dead_branch : forall t p s, reach t -> subtrie t p = Some s -> p <> nil ->
+  (exists m, 0 <= assoc_get (to_map t) (p ++ m)) /\ (tch s = nil -> 0 <= assoc_get (to_map t) p).
+Proof. exact reach_no_dead_branch. Qed.
+Print Assumptions reachable_trie_has_no_dead_branch.
+
+Theorem reachable_trie_without_names_is_empty : forall t, reach t ->
+  (forall m, assoc_get (to_map t) m = -1) -> t = empty_trie.
+Proof. exact reach_no_names_empty. Qed.
+Print Assumptions reachable_trie_without_names_is_empty.
+
+(** Remove of a registered name: succeeds (no nil dereference), deletes exactly
+    that name, and returns [true] exactly when the trie became empty.  Remove of
+    an absent name whose node does not exist is [Panic] in the model (nil
+    dereference in Go), hence the hypothesis. *)
+Theorem remove_spec : forall t n, reach t -> 0 <= assoc_get (to_map t) n ->
   exists t' b, remove t n = Ok (t', b) /\
     (forall m, assoc_get (to_map t') m = assoc_get (assoc_remove (to_map t) n) m) /\
-    (b = true -> forall m, assoc_get (to_map t') m = -1).
-Proof. exact remove_to_map. Qed.
-Print Assumptions remove_spec_partial.
+    (b = true <-> forall m, assoc_get (to_map t') m = -1).
+Proof. exact remove_to_map_full. Qed.
+Print Assumptions remove_spec.
+
+(** ... and whenever Remove does not panic (the node of the name exists, with or
+    without a value) its result is "the trie is now empty" *)
+Theorem remove_result_iff_empty : forall t n t' b, reach t -> remove t n = Ok (t', b) ->
+  (b = true <-> forall m, assoc_get (to_map t') m = -1).
+Proof. exact remove_ok_full. Qed.
+Print Assumptions remove_result_iff_empty.
+
+(** non-vacuity: removing the only name below an inner chain cuts the whole
+    chain (the trie is the empty trie again, result true); with a sibling left
+    the result is false and no value-less leaf remains *)
+Example remove_example :
+  let a := [97%N] in let b := [98%N] in
+  remove (set empty_trie [a; b; a] 3) [a; b; a] = Ok (empty_trie, true)
+  /\ remove (set (set empty_trie [a; b; a] 3) [a; a] 4) [a; b; a]
+     = Ok (Node (-1) [(a, Node (-1) [(a, Node 4 [])])], false)
+  /\ remove (set (set empty_trie [a; b] 3) [a] 4) [a] = Ok (set empty_trie [a; b] 3, false).
+Proof. vm_compute. repeat split; reflexivity. Qed.
+
+(** ------------------------------------------- the monitor on the model
+    The monitor [mon19] (the decidable check that judges the Go code) is silent on
+    the model's own output [run19], for every input such that
+    - kind 0 (trie history): the model does not panic (it panics only on a Remove
+      of a name whose node does not exist, a nil dereference in Go; second theorem
+      below: no panic when every Remove is of a registered name and every Set
+      value is >= 0);
+    - kind 2 (demultiplexer): every owner index has a backend description and the
+      instance names in the operations are well-formed ([op_wf]: name_ok (split
+      inst); for GetFromComposite only when parent and child carry the same name);
+    - kind 1 (patcher) and kind 3 / any other kind (hierarchical decorator, any
+      backend description, error names, FindMissing faults): no hypothesis.
+    Each hypothesis is necessary: [monitor_on_model_needs_*] below. *)
+Theorem monitor_silent_on_model : forall inp, model_input_ok inp -> mon19 inp (run19 inp) = nil.
+Proof. exact mon19_silent_on_model. Qed.
+Print Assumptions monitor_silent_on_model.
+
+Example model_input_ok_examples :
+  let a := [97%N] in let b := [98%N] in
+  model_input_ok (L [A 0; L [L [A 0; enc_str a; A 3]; L [A 3; enc_str (a ++ [47%N] ++ b)]; L [A 1; enc_str a]]])
+  /\ model_input_ok (L [A 2; L [L [enc_str a; enc_str b]]; L [L [L []; A 0]];
+                         L [L [A 3; enc_dgs [(a ++ [47%N] ++ b, 1%N); (b, 2%N)]]]]).
+Proof.
+  split; (split; [intros H; vm_compute in H; try discriminate; vm_compute; try discriminate
+                 |intros H; vm_compute in H; try discriminate; vm_compute; split; reflexivity]).
+Qed.
+
+(** the hypotheses are needed: a trie history on which the model panics (Remove of
+    a name without node); a demultiplexer input with the ill-formed name "a/"; a
+    demultiplexer configuration whose owner has no backend *)
+Example monitor_on_model_needs_no_panic :
+  let inp := L [A 0; L [L [A 4; enc_str [97%N]]; L [A 1; enc_str [98%N]]]] in
+  run19 inp = panic_obs /\ mon19 inp (run19 inp) = [2].
+Proof. vm_compute. split; reflexivity. Qed.
+Example monitor_on_model_needs_wf_names :
+  let inp := L [A 2; L [L [enc_str [97%N]; enc_str [98%N]]]; L [L [L []; A 0]];
+                L [L [A 0; enc_dg ([97%N; 47%N], 1%N)]]] in
+  mon19 inp (run19 inp) = [7].
+Proof. vm_compute. reflexivity. Qed.
+Example monitor_on_model_needs_backends :
+  let inp := L [A 2; L [L [enc_str [97%N]; enc_str [98%N]]]; L [];
+                L [L [A 0; enc_dg ([97%N], 1%N)]]] in
+  mon19 inp (run19 inp) = [7; 8].
+Proof. vm_compute. reflexivity. Qed.
+
+(** the four kinds separately *)
+Theorem monitor_silent_on_model_trie : forall inp,
+  sx_Z (sx_nth inp 0) = 0 ->
+  run_trie (sx_list (sx_nth inp 1)) empty_trie <> None ->
+  mon19 inp (run19 inp) = nil.
+Proof. exact mon19_silent_on_trie_model. Qed.
+Print Assumptions monitor_silent_on_model_trie.
+
+Theorem trie_model_no_panic_on_registered_removes : forall inp,
+  sx_Z (sx_nth inp 0) = 0 ->
+  removes_registered (sx_list (sx_nth inp 1)) nil ->
+  run_trie (sx_list (sx_nth inp 1)) empty_trie <> None /\ mon19 inp (run19 inp) = nil.
+Proof. exact mon19_silent_on_trie_model_registered. Qed.
+Print Assumptions trie_model_no_panic_on_registered_removes.
+
+(** ... demultiplexer inputs (kind 2), clauses 6-10, faulty backends included *)
+Theorem monitor_silent_on_model_demux : forall inp,
+  sx_Z (sx_nth inp 0) = 2 ->
+  (length (dec_cfg (sx_nth inp 1)) <= length (sx_list (sx_nth inp 2)))%nat ->
+  forallb op_wf (sx_list (sx_nth inp 3)) = true ->
+  mon19 inp (run19 inp) = nil.
+Proof. exact mon19_silent_on_demux_model. Qed.
+Print Assumptions monitor_silent_on_model_demux.
+
+(** ... patcher inputs (kind 1), clauses 4 and 5: no hypothesis *)
+Theorem monitor_silent_on_model_patcher : forall inp,
+  sx_Z (sx_nth inp 0) = 1 -> mon19 inp (run19 inp) = nil.
+Proof. exact mon19_silent_on_patcher_model. Qed.
+Print Assumptions monitor_silent_on_model_patcher.
+
+(** ... hierarchical-decorator inputs (kind 3 and every kind other than 0, 1, 2),
+    clauses 11-14, any backend description including error names and FindMissing
+    faults at any call: no hypothesis *)
+Theorem monitor_silent_on_model_hier : forall inp,
+  sx_Z (sx_nth inp 0) <> 0 -> sx_Z (sx_nth inp 0) <> 1 -> sx_Z (sx_nth inp 0) <> 2 ->
+  mon19 inp (run19 inp) = nil.
+Proof. exact mon19_silent_on_hier_model. Qed.
+Print Assumptions monitor_silent_on_model_hier.
 
 (** "ab" has the string prefix "a" but not the component prefix: it is not
     routed to "a"; "a/b" is. *)
